@@ -316,6 +316,10 @@ def _shard_child(arg, conn):
         conn.send(run_shard(arg))
     finally:
         conn.close()
+        if os.environ.get("HXV_COV"):
+            from hxv import cov
+
+            cov.dump()
 
 
 def run_parallel(args, jobs, deadline):
